@@ -28,7 +28,8 @@ def register(reg: Registry) -> None:
                      "self._line_number == old(self._line_number) + ite(line, 1, 0) + count_nl(stmnt)",
                      # the statement text is appended verbatim at the end of the output
                      "any_val(lambda pre: is_str(pre) and self._output == typed(pre, 'str') + stmnt and count_nl(typed(pre, 'str')) == old(count_nl(self._output)) + ite(line, 1, 0))"],
-            modifies=["self._line_number", "self._output"], canaries=["self._line_number == old(self._line_number) + 1"], properties=["C09"])
+            modifies=["self._line_number", "self._output"] + (["self._jump_waiting_for_source_map"] if cls == "ExplorerScriptSsbDecompiler" else []),
+            canaries=["self._line_number == old(self._line_number) + 1"], properties=["C09"])
     reg.contract(
         f"{D}:ExplorerScriptSsbDecompiler.source_map_add_opcode", types={"self": "ExplorerScriptSsbDecompiler", "op_offset": "int"},
         requires=["not is_none(self.smb)"],
@@ -49,5 +50,5 @@ def lemma(d: ExplorerScriptSsbDecompiler, op_offset: int, stmnt: str):
     assert d.smb._mappings[op_offset].column == d.indent * 4
 """, types={"d": "ExplorerScriptSsbDecompiler", "op_offset": "int", "stmnt": "str", "__module__": D},
               requires=["d._line_number == 1 + count_nl(d._output)", "not is_none(d.smb)"],
-              modifies=["d._line_number", "d._output", "dict(typed(d.smb, 'SourceMapBuilder')._mappings)", "alloc"], properties=["C09"],
+              modifies=["d._line_number", "d._output", "d._jump_waiting_for_source_map", "dict(typed(d.smb, 'SourceMapBuilder')._mappings)", "alloc"], properties=["C09"],
               note="source_map_add_opcode(o); write_stmnt(s) records (line index where s starts, indent*4)")
